@@ -81,6 +81,7 @@ RULE_TITLES = {
     'R50': 'stored integers of values are written only in freshly built objects (values are immutable)',
     'R51': 'no unbound local or free variable on the count path',
     'R52': 'optional source / comment strings are read whenever a quoted token follows',
+    'R58': 'int() only on tokens that matched a digits-only pattern; the ballot file is opened only by bltRead as utf-8-sig; the driver passes the path',
     'R57': 'every recorded key (quota, votes, surplus, residual, nt_votes, cstate fields ...) is read from the election field of that meaning',
     'R56': 'indexes inside range(len(xs) - k) loops of the counting rules stay inside the list',
     'R55': 'QPQ stage bookkeeping (tx, va, vc, tc, quotient, new weight, restart) equals Woodall 2.3-2.5 modulo renaming, in order',
@@ -175,7 +176,7 @@ prop('C18',
      ['textual agreement of report/dump/JSON figures (they print str() of the same stored object)'])
 prop('C15',
      [('R26', ps.r26_cid_sanitiser), ('R26d', ps.r26d_tokenizer_precedence), ('R27', ps.r27_typecode_capacity), ('R28', ps.r28_strip_complete),
-      ('R29', ps.r29_ballot_count_pairing), ('R30', ps.r30_validation), ('R52', ps.r52_optional_tail), ('R15', ti.r15_tie_funnel), ('R48', gs.r48_no_global_writer)],
+      ('R29', ps.r29_ballot_count_pairing), ('R30', ps.r30_validation), ('R52', ps.r52_optional_tail), ('R15', ti.r15_tie_funnel), ('R48', gs.r48_no_global_writer), ('R58', ps.r58_numbers_and_files)],
      'Static analysis of droop/profile.py: every candidate ID that enters a set, an order, a name table or a ranking '
      'flows (reaching definitions) from getCid or a 1..nCand range; the ranking array item type can hold every valid ID '
      'of its branch; the withdrawn strip tests every element; nBallots grows exactly on the paths that keep a line; the '
@@ -186,7 +187,7 @@ prop('C15',
 
 prop('C16',
      [('R31', ps.r31_exception_escape), ('R32', ps.r32_loops_consume), ('R26', ps.r26_cid_sanitiser),
-      ('R27', ps.r27_typecode_capacity), ('R33', ps.r33_cli_handlers), ('R30', ps.r30_validation), ('R53', nm.r53_rule_interface)],
+      ('R27', ps.r27_typecode_capacity), ('R33', ps.r33_cli_handlers), ('R30', ps.r30_validation), ('R53', nm.r53_rule_interface), ('R58', ps.r58_numbers_and_files)],
      'Static analysis of droop/profile.py and Droop.py: every partial operation reachable from ElectionProfile(data=...) '
      '(next, int, subscripts, local-name loads incl. exception edges, %-formatting, list.remove, array construction, raise) '
      'is discharged, so the escape set is {ElectionProfileError}; every parser loop consumes a token per iteration; accepted '
@@ -260,7 +261,7 @@ prop('C06',
 
 prop('C10',
      [('R19', gr.r19_multiplier_last), ('R20', gr.r20_order_free_loops), ('R21', va.r21_scale_rounding), ('R29', ps.r29_ballot_count_pairing),
-      ('R26d', ps.r26d_tokenizer_precedence), ('R26', ps.r26_cid_sanitiser)],
+      ('R26d', ps.r26d_tokenizer_precedence), ('R26', ps.r26_cid_sanitiser), ('R58', ps.r58_numbers_and_files)],
      'Static analysis: the ballot multiplier only ever multiplies a finished (already rounded) per-ballot quantity and the '
      'product only feeds additive accumulators; no weight or keep computation has the multiplier among its inputs; ballot '
      'loops only accumulate (no break/return, no plain store to shared state); additions are exact (R21), so neither the '
